@@ -55,7 +55,8 @@ func (d *dir) ReadDir(n int) ([]hackpadfs.DirEntry, error) {
 		start = len(entries)
 	}
 	end := len(entries)
-	if n > 0 && start+n < end {
+	if n > 0 && n < end-start {
+		// compare with the remainder: start+n can overflow for a huge n
 		end = start + n
 	}
 	d.offset = end
